@@ -12,6 +12,11 @@ CONVEX = {
 }
 
 
+# recipes that hand a raw coordinate array to a constructor (the array may come in any memory layout)
+LAYOUT_KINDS = {"pointcoll", "linecoll", "planecoll", "conic", "quadric", "quadriccoll", "transf", "transfcoll", "ctransf",
+                "ctransfcoll", "cquadric", "polygon_arr", "polygoncoll", "tensorcoll", "tensor"}
+
+
 def make_cfg(rng: random.Random, profile: str = "c12") -> dict:
     import os
 
@@ -38,6 +43,7 @@ def make_cfg(rng: random.Random, profile: str = "c12") -> dict:
         "n_faults": rng.choice([0, 1, 1, 2, 3, 5] if deep else [0, 1, 1, 2, 3]),
         "fault_kinds": rng.sample(["async_interrupt", "async_memerr", "fp_trap", "cache_evict"], rng.randint(1, 4)),
         "p_ws_aim": 0.5,
+        "p_layout": rng.choice([0.0, 0.0, 0.3]),   # Fortran-ordered / transposed-view coordinate arrays
     }
     warm = []
     if not cfg["cold_start"]:
@@ -68,6 +74,8 @@ class PoolGen:
             r["a"] = a
         if kw:
             r["kw"] = kw
+        if k in LAYOUT_KINDS and self.rng.random() < self.cfg.get("p_layout", 0.0):
+            r["layout"] = self.rng.choice(["F", "M"])
         self.recipes.append(r)
         self.by.setdefault(tag or k, []).append(slot)
         return slot
@@ -473,6 +481,29 @@ def _scenarios(self, d):
         self.script.append({"op": "seg_intersect", "args": [sa, one]})
         self.script.append({"op": "seg_contains", "args": [sb, b1]})
         return
+    if d == 3 and rng.random() < 0.3:
+        # 3D lines through one point (coplanar pairs: angle bisectors, meet and join of lines are defined) and a
+        # pair of line collections of which only SOME pairs are coplanar (join/meet must refuse without side effects)
+        o = [rng.randint(-2, 2) for _ in range(3)]
+        dirs = [(1, 0, 0), (0, 1, 0), (1, 1, 0), (0, 0, 1), (1, 2, -1)]
+        rng.shuffle(dirs)
+        po = pt(o, "i")
+        ends = [pt([o[i] + v[i] for i in range(3)], rng.choice(["i", "f"])) for v in dirs[:3]]
+        ls = [self.add("line_pq", [po, e], tag="line3") for e in ends]
+        self.script.append({"op": "angle_bisectors", "args": ls[:2]})
+        self.script.append({"op": "meet_ll", "args": [ls[0], ls[2]]})
+        self.script.append({"op": "join_ll", "args": [ls[1], ls[2]]})
+        self.script.append({"op": "angle_ll", "args": ls[:2]})
+        a1 = self.add("pointcoll", [[[0, 0, 0, 1], [0, 0, 0, 1]]], {"dt": "i"}, tag="pointcoll3")
+        a2 = self.add("pointcoll", [[[2, 2, 0, 1], [2, 0, 0, 1]]], {"dt": "i"}, tag="pointcoll3")
+        b1 = self.add("pointcoll", [[[0, 2, 0, 1], [0, 1, 1, 1]]], {"dt": "i"}, tag="pointcoll3")
+        b2 = self.add("pointcoll", [[[2, 0, 0, 1], [0, -1, 3, 1]]], {"dt": "i"}, tag="pointcoll3")
+        la = self.add("linecoll_pq", [a1, a2], tag="linecoll3")
+        lb = self.add("linecoll_pq", [b1, b2], tag="linecoll3")
+        self.script.append({"op": "join_ll", "args": [la, lb]})
+        self.script.append({"op": "meet_ll", "args": [la, lb]})
+        self.script.append({"op": "angle_bisectors", "args": [ls[0], ls[1]]})
+        return
     if d == 3 and rng.random() < 0.4:
         # 3D polygons met by lines/segments of which SOME lie in / parallel to the supporting planes: the
         # except-LinearDependenceError recovery paths of PolygonTensor.intersect
@@ -491,8 +522,12 @@ def _scenarios(self, d):
         c = rng.randrange(3)
         if c == 0 and rng.random() < 0.3:   # NoIncidence path: a point that is not on the conic
             c1 = self.add("circle", [None, 1], tag="conic")
-            ps = [pt(x, "i") for x in ((3, 3), (0, 1), (1, 0), (0, 0), (0, 4), (2, 2))]
-            self.script.append({"op": "from_points_and_conics", "args": ps + [c1, c1]})
+            ctr = pt((0, 2), "i")
+            c2 = self.add("circle", [ctr, 2], tag="conic")
+            xy = [(0, -1), (0, 1), (1, 0), (0, 0), (0, 4), (2, 2)]
+            xy[rng.randrange(6)] = (3, 3)     # which of the six incidences fails decides how far the call gets
+            ps = [pt(x, "i") for x in xy]
+            self.script.append({"op": "from_points_and_conics", "args": ps + [c1, c2]})
             g, h = [1, 0, 0], [0, 1, -1]
             m = [[g[i] * h[j] + g[j] * h[i] for j in range(3)] for i in range(3)]
             dq = self.add("conic", [m], {"dual": True}, tag="conic")   # degenerate DUAL conic
